@@ -35,7 +35,7 @@ Definition VE := RaiseValueError.
 Inductive wt := WPos | WZero | WNeg | WMissing.
 Record elem := { e_w : wt; e_ign : bool }.            (* weighted element: edge (edge mode) / node (node mode);
                                                          e_ign = it is named by the caller's elements_to_ignore *)
-Inductive ktag := KInt (z : Z) | KNonInt (q : Q).    (* python int / python float *)
+Inductive ktag := KInt (z : Z) | KNonInt (q : Q) | KBool (b : bool).    (* python int / python float / python bool *)
 Inductive wtype_tag := TInt | TFloat | TOther.
 Inductive origin_tag := OEdge | ONode | OOther.
 Inductive item_kind := IStr | IPair | ITriple | IInt. (* str / 2-tuple / 3-tuple / non-iterable *)
@@ -53,6 +53,7 @@ Record input := {
   elems : list elem;
   conserving : bool;               (* graphutils.check_flow_conservation on the caller's graph *)
   k : ktag;
+  has_superset : bool;             (* solution_weights_superset is given (kFlowDecomp, kLeastAbsErrors, kMinPathError) *)
   cons : list constr;
   cov : Q;
   cov_len : option Q;              (* subpath_constraints_coverage_length (DAG models only) *)
@@ -94,9 +95,10 @@ Definition ign_internal_empty (i : input) : bool :=
   | _ => is_nil (ign i)
   end.
 
-Definition k_pos_int (i : input) := match k i with KInt z => Z.ltb 0 z | KNonInt _ => false end.
-Definition k_is_int (i : input) := match k i with KInt _ => true | KNonInt _ => false end.
-Definition k_le0 (i : input) := match k i with KInt z => Z.leb z 0 | KNonInt q => Qle_bool q 0 end.
+Definition k_pos_int (i : input) := match k i with KInt z => Z.ltb 0 z | _ => false end.
+Definition k_is_true (i : input) := match k i with KBool true => true | _ => false end.
+Definition k_is_int (i : input) := match k i with KInt _ => true | _ => false end.
+Definition k_le0 (i : input) := match k i with KInt z => Z.leb z 0 | KNonInt q => Qle_bool q 0 | KBool b => negb b end.
 Definition cov_ok (i : input) := negb (Qle_bool (cov i) 0) && Qle_bool (cov i) 1.
 Definition has_covlen (i : input) := match cov_len i with Some _ => true | None => false end.
 Definition covlen_ok (i : input) := match cov_len i with Some l => negb (Qle_bool l 0) && Qle_bool l 1 | None => true end.
@@ -252,21 +254,27 @@ Definition en_of (i : input) := match origin i with ONode => map (fun _ => true)
 (* ------------------------------------------------------------------ DAG models *)
 (* kFlowDecomp.__init__ (kflowdecomp.py:123-259); [kb] = k is not a positive python int (MinFlowDecomp passes one).
    The constraints are validated before the greedy shortcut, which therefore cannot raise any more. *)
-Definition kfd_core (i : input) (ign_empty : bool) (kb : bool) : outcome :=
+Definition kfd_core (i : input) (ign_empty : bool) (kb_own kb_base : bool) : outcome :=
   v_stdag i [] [] ;;
   guard (negb (wtype_ok i)) VE ;;
   guard (ign_empty && negb (conserving i)) VE ;;
   v_maxflow i ;;
-  guard kb VE ;;
+  guard kb_own VE ;;
   check_cons (internal_cons i) ;;
-  v_pathmodel i kb ;;
+  v_pathmodel i kb_base ;;
   Accept.
+(* k and the given weights.  kFlowDecomp validates the caller's k itself (`k <= 0 or not isinstance(k, int)`: a bool passes as
+   an int), BEFORE and independently of solution_weights_superset; afterwards `self.k = len(solution_weights_superset)` and the
+   base class validates THAT number.  kLeastAbsErrors / kMinPathError have no check of their own: with given weights the
+   caller's k is overwritten before anything looks at it (OPEN finding). *)
+Definition k_own_bad (i : input) := k_bad i && negb (k_is_true i).
+Definition k_base_bad (i : input) := negb (has_superset i) && k_bad i.
 Definition validate_kFlowDecomp (i : input) : outcome :=
   match origin i with
   | ONode => v_nodeexp i [] [] false ;; expand_cons (cons i) ;;
              guard (negb (ign_ok_node i)) VE ;; guard (negb (ign_present i)) VE ;;
-             kfd_core i (ign_internal_empty i) (k_bad i)
-  | OEdge => front_edge i ;; kfd_core i (ign_internal_empty i) (k_bad i)
+             kfd_core i (ign_internal_empty i) (k_own_bad i) (k_base_bad i)
+  | OEdge => front_edge i ;; kfd_core i (ign_internal_empty i) (k_own_bad i) (k_base_bad i)
   | OOther => VE
   end.
 
@@ -275,7 +283,7 @@ Definition validate_kFlowDecomp (i : input) : outcome :=
 Definition mfd_solve (i : input) : outcome :=
   v_stdag i [] [] ;;
   guard (negb (search_enters i)) AcceptsButUnsolved ;;
-  kfd_core i (ign_internal_empty i) false.
+  kfd_core i (ign_internal_empty i) false false.
 Definition validate_MinFlowDecomp (i : input) : outcome :=
   match origin i with
   | ONode =>
@@ -296,7 +304,7 @@ Definition validate_kErrDAG (i : input) : outcome :=
   v_stdag i (st_of i) (en_of i) ;;
   guard (negb (wtype_ok i)) VE ;;
   v_maxflow i ;;
-  v_pathmodel i (k_bad i) ;;
+  v_pathmodel i (k_base_bad i) ;;
   Accept.
 Definition validate_kMinPathError := validate_kErrDAG.
 Definition validate_kLeastAbsErrors := validate_kErrDAG.
